@@ -44,6 +44,8 @@ def const(v):
     if isinstance(v, float):
         return SV('real', z3.RealVal(repr(v)))
     if isinstance(v, str): return SV('str', z3.StringVal(v))
+    import datetime
+    if type(v) is datetime.date: return SV('date', z3.IntVal(v.year * 10000 + v.month * 100 + v.day))
     raise Unmodelled('constant of type %s' % type(v).__name__)
 
 
@@ -108,6 +110,14 @@ def unify(a, b):
     if a.sort == 'null': return typed_null(a, b.sort), b
     if b.sort == 'null': return a, typed_null(b, a.sort)
     s = {a.sort, b.sort}
+    if s == {'date', 'str'}:
+        # SQLite keeps dates as 'YYYY-MM-DD' text: a string literal of that form next to a date column is that date
+        d, t = (a, b) if a.sort == 'date' else (b, a)
+        import re
+        mo = re.match(r'(\d{4})-(\d{2})-(\d{2})$', t.t.as_string()) if z3.is_string_value(t.t) else None
+        if mo is None: raise Unmodelled('date compared with a non-constant string')
+        k = SV('date', z3.IntVal(int(mo.group(1)) * 10000 + int(mo.group(2)) * 100 + int(mo.group(3))), t.n)
+        return (d, k) if a.sort == 'date' else (k, d)
     if s == {'int', 'bool'}: return to_int(a), to_int(b)
     if s <= {'int', 'bool', 'real'}: return to_real(a), to_real(b)
     raise Unmodelled('cannot unify %s with %s' % (a.sort, b.sort))
